@@ -88,7 +88,7 @@ DERIVE = (
 		0: ('bfm_skip_conn', 'conn'), 1: ('bfm_skip_cmp', 'op'), 3: ('bfm_new_key_test', 'memb'),
 		4: ('bfm_init_match', 'op'), 5: ('bfm_field_match', 'op')})
 	# extend_models
-	.anchor(UTIL, 'AstFieldExtensions.__init__', {0: ('ext_default_abstract', 'bool')})
+	.anchor(UTIL, 'AstFieldExtensions.__init__', {})
 	.anchor(UTIL, '_find_field_by_name', {0: ('ffn_match', 'op')})
 	.anchor(UTIL, '_bind_size_fields', {0: ('bsf_array_conn', 'conn')})
 	# `TYPED_ARRAY == display_type`, `element_type_model and STRUCT == ...`, `not struct.is_aligned and element.is_aligned`, `= True`
